@@ -229,15 +229,22 @@ pub mod subiter {
         // size_hint at this state
         let (lo, hi) = it.size_hint();
         if NLEN == 0 {
+            // the number of matches still to come is known in closed form
             let left = if pos <= hlen { hlen - pos + 1 } else { 0 };
-            assert!(lo == left && hi == Some(left), "oracle: size_hint for the empty needle is not exact");
-        } else {
-            assert!(lo == 0, "oracle: size_hint lower bound above 0 for a non-empty needle");
-            // upper bound must admit floor(remaining / nlen) matches
-            let left = if pos <= hlen { (hlen - pos) / NLEN } else { 0 };
-            assert!(hi.map_or(true, |x| x >= left), "oracle: size_hint upper bound too small");
+            assert!(lo <= left, "oracle: size_hint lower bound above the matches still to come");
+            assert!(hi.map_or(true, |x| x >= left), "oracle: size_hint upper bound below the matches still to come");
         }
         let r = it.next();
+        if NLEN > 0 {
+            // necessary consequences of "lower <= #matches <= upper" that need
+            // no counting loop (the traversal harnesses check the exact bracket)
+            if lo >= 1 {
+                assert!(r.is_some(), "oracle: size_hint lower bound >= 1 but no match is left");
+            }
+            if r.is_some() {
+                assert!(hi.map_or(true, |x| x >= 1), "oracle: size_hint upper bound 0 but a match is left");
+            }
+        }
         let (pos2, _, _) = it.verif_state();
         if pos > hlen {
             assert!(r.is_none(), "oracle: exhausted iterator yielded a match");
